@@ -20,6 +20,7 @@ package main
 
 import (
 	"fmt"
+	"math"
 	"math/rand"
 	"net"
 	"sort"
@@ -321,7 +322,26 @@ const (
 	opWaitDone
 	opCtx
 	opEnd
+	opHelperOK   // arguments.go NewArgWriter(w, nil).Write(bytes): f() = Write succeeds, the helper closes the writer
+	opHelperFail // NewArgWriter(w, nil).WriteJSON(a value that cannot be encoded): f() fails above the transport
 )
+
+// values json.Encoder refuses before writing a byte
+type rwBadMarshaler struct{}
+
+func (rwBadMarshaler) MarshalJSON() ([]byte, error) {
+	return nil, fmt.Errorf("refuses to be marshalled")
+}
+
+func rwUnencodable(k int) interface{} {
+	switch k % 3 {
+	case 0:
+		return map[string]float64{"ratio": math.NaN()}
+	case 1:
+		return rwBadMarshaler{}
+	}
+	return map[string]interface{}{"c": make(chan int)}
+}
 
 type hcmd struct {
 	op, k int
@@ -399,6 +419,10 @@ func scriptedHandler(ctx context.Context, call *tchannel.InboundCall) {
 				r.err = w.Flush() != nil
 			case opClose:
 				r.err = w.Close() != nil
+			case opHelperOK:
+				r.err = tchannel.NewArgWriter(w, nil).Write([]byte("helper-written")) != nil
+			case opHelperFail:
+				r.err = tchannel.NewArgWriter(w, nil).WriteJSON(rwUnencodable(cmd.k)) != nil
 			case opSysErr:
 				r.err = resp.SendSystemError(tchannel.ErrServerBusy) != nil
 			case opAppErr:
@@ -594,7 +618,7 @@ func (m *mcase) stepCall(c *mcall) {
 	c.pc++
 	id := int64(c.id)
 	// once an API call has failed only calls with a result-independent translation are made
-	writerOp := cmd.op == opWrite || cmd.op == opBigWrite || cmd.op == opFlush || cmd.op == opClose
+	writerOp := cmd.op == opWrite || cmd.op == opBigWrite || cmd.op == opFlush || cmd.op == opClose || cmd.op == opHelperOK || cmd.op == opHelperFail
 	if writerOp && (c.errSeen || !c.open) {
 		return
 	}
@@ -643,13 +667,27 @@ func (m *mcase) stepCall(c *mcall) {
 			m.lab(15, id, 1)
 			m.lab(16, id, 0)
 		}
-	case opClose:
+	case opHelperFail:
+		// ArgWriteHelper.write whose f() fails above the transport (the value cannot be encoded):
+		// HHelperWrite id false -- the model records the error and touches nothing; the writer
+		// stays open, the response has not failed (a system error that follows must be sent)
 		r, ok := m.do(c, cmd)
 		if !ok {
 			return
 		}
 		c.rets = append(c.rets, b2i(r.err))
-		m.lab(17, id, 0)
+		m.lab(22, id, 0)
+	case opClose, opHelperOK:
+		r, ok := m.do(c, cmd)
+		if !ok {
+			return
+		}
+		c.rets = append(c.rets, b2i(r.err))
+		if cmd.op == opHelperOK {
+			m.lab(22, id, 1) // HHelperWrite id true: the helper's Close
+		} else {
+			m.lab(17, id, 0)
+		}
 		c.open = false
 		if c.wk == 3 {
 			if !r.err {
@@ -825,6 +863,9 @@ func completePlan(rng *rand.Rand, nf2, nf3 int) []hcmd {
 
 // genPlan returns the handler script, whether the call needs a short ttl, and its class.
 func genPlan(rng *rand.Rand) ([]hcmd, bool, string) {
+	if rng.Intn(6) == 0 {
+		return helperPlan(rng)
+	}
 	full := completePlan(rng, pick(rng, 0, 0, 1, 2), pick(rng, 0, 0, 1, 3))
 	switch rng.Intn(12) {
 	case 0, 1, 2:
@@ -874,6 +915,43 @@ func genPlan(rng *rand.Rand) ([]hcmd, bool, string) {
 	}
 }
 
+// helperPlan: handlers written with the arg helpers (arguments.go NewArgWriter(..).Write / WriteJSON),
+// the way an ErrorHandlerFunc is: the first error ends the handler and is answered with ONE system
+// error.  The failing encode hits arg2 or arg3, with 0..2 fragments of the argument flushed before.
+func helperPlan(rng *rand.Rand) ([]hcmd, bool, string) {
+	p := []hcmd{{op: opResp}, {op: opArgW, k: 1}, {op: opClose}, {op: opArgW, k: 2}}
+	pre := func(n int) {
+		for i := 0; i < n; i++ {
+			p = append(p, hcmd{op: opWrite}, hcmd{op: opFlush})
+		}
+	}
+	fail := hcmd{op: opHelperFail, k: rng.Intn(3)}
+	switch rng.Intn(7) {
+	case 0:
+		pre(pick(rng, 0, 0, 1))
+		p = append(p, hcmd{op: opHelperOK}, hcmd{op: opArgW, k: 3})
+		pre(pick(rng, 0, 0, 1, 2))
+		return append(p, hcmd{op: opHelperOK}), false, "helper:complete"
+	case 1:
+		pre(pick(rng, 0, 0, 1))
+		return append(p, fail, hcmd{op: opSysErr}), false, "helper:arg2-encode-fails+syserr"
+	case 2: // the application retries with a fallback body on the writer it still holds
+		p = append(p, hcmd{op: opHelperOK}, hcmd{op: opArgW, k: 3})
+		pre(pick(rng, 0, 1))
+		return append(p, fail, hcmd{op: opHelperOK}), false, "helper:arg3-encode-fails+fallback-body"
+	case 3: // a layer that only logs the error (json.Register): nothing more is sent
+		p = append(p, hcmd{op: opHelperOK}, hcmd{op: opArgW, k: 3})
+		return append(p, fail), false, "helper:arg3-encode-fails+silent"
+	case 4: // the deadline passes, then the helper's Close fails, the handler answers with a system error (refused)
+		p = append(p, hcmd{op: opHelperOK}, hcmd{op: opArgW, k: 3}, hcmd{op: opWaitDone}, hcmd{op: opHelperOK}, hcmd{op: opSysErr})
+		return p, true, "helper:deadline-then-close-fails+syserr"
+	default:
+		p = append(p, hcmd{op: opHelperOK}, hcmd{op: opArgW, k: 3})
+		pre(pick(rng, 0, 0, 1, 2))
+		return append(p, fail, hcmd{op: opSysErr}), false, "helper:arg3-encode-fails+syserr"
+	}
+}
+
 func (m *mcase) stoppedByProto() bool { return m.protoStopped }
 
 // runModelCase runs one scripted connection and returns (input, observation, verdict, classes).
@@ -919,6 +997,9 @@ func runModelCase(rng *rand.Rand, servers [2]*tchannel.Channel, caseNo int) (in,
 		plan, short, class := genPlan(rng)
 		if forcePlan != nil {
 			plan, short, class = forcePlan, false, "forced:syserr-of-last-drained-call"
+		} else if caseNo%8 == 1 && started == 0 {
+			// forced in every 8th case: a handler written with the arg helpers
+			plan, short, class = helperPlan(rng)
 		}
 		classes = append(classes, class)
 		ttl := uint32(60000)
